@@ -3,7 +3,7 @@ use crate::{
     model::{Namespace, TryFromNode, doc::Wanted, field::resolve_type, node::RustNode},
 };
 use roxmltree::Node;
-use std::{collections::HashMap, rc::Rc};
+use std::{collections::BTreeMap, rc::Rc};
 
 type XmlName = String;
 
@@ -11,7 +11,7 @@ type XmlName = String;
 /// These are just used for lookup and are not written to the output
 pub struct SoapMessage {
     pub xml_name: String,
-    pub parts: HashMap<XmlName, (Rc<RustNode>, Option<Rc<Namespace>>)>,
+    pub parts: BTreeMap<XmlName, (Rc<RustNode>, Option<Rc<Namespace>>)>,
 }
 
 impl<'n> TryFromNode<'n> for SoapMessage {
@@ -43,7 +43,7 @@ impl<'n> TryFromNode<'n> for SoapMessage {
 
                 Ok((part_name, (rust_node.clone(), namespace.clone())))
             })
-            .collect::<WriterResult<HashMap<XmlName, (Rc<RustNode>, Option<Rc<Namespace>>)>>>()?;
+            .collect::<WriterResult<BTreeMap<XmlName, (Rc<RustNode>, Option<Rc<Namespace>>)>>>()?;
 
         Ok(SoapMessage { xml_name, parts })
     }
